@@ -203,6 +203,7 @@ def oracle(case: dict):
     dictIO = _impl()
     s = mk_sdict(case["init"])
     d = copy.deepcopy(case["init"]["data"])
+    merged_args = []     # every argument ever passed to merge(): none may change, not by a LATER operation on the SDict either
     for step, op in enumerate(case["ops"]):
         arg_before = copy.deepcopy(op[1]) if op[0] in ("update", "ior", "or", "merge", "ror") else None
         argobj = None
@@ -242,10 +243,11 @@ def oracle(case: dict):
         if not isinstance(s, dictIO.SDict):
             return ("not-sdict", f"step {step} {op[0]} returned {type(s).__name__}, not an SDict")
         if argobj is not None and op[0] == "merge":
-            now = gen.plain(dict(argobj))
-            exp = arg_before[1] if arg_before[0] == "plain" else arg_before[1]["data"]
+            merged_args.append((step, argobj, arg_before[1] if arg_before[0] == "plain" else arg_before[1]["data"]))
+        for mstep, mobj, exp in merged_args:
+            now = gen.plain(dict(mobj))
             if not gen.typed_eq(now, exp):
-                return ("other-modified", f"step {step} {op[0]} modified its argument: {now!r} was {exp!r}")
+                return ("other-modified", f"step {step} {op[0]} modified the argument of the merge of step {mstep}: {now!r} was {exp!r}")
         if ordinary(case):
             got = gen.plain(dict(s))
             if not gen.typed_eq(got, d) or len(s) != len(d) or list(s) != list(d):
@@ -446,6 +448,24 @@ def run(ctx):
         cases.append({"init": init, "ops": ops, "ordinary": not placeholders, "placeholders": placeholders})
     for i in range(ctx.n(150, 4000)):
         cases.append(orphan_case(rng))
+    # merge into an EMPTY target (fresh, or emptied by clear() with its tables left), then operations that reach into the
+    # nested levels the merge brought in: the merged-in dict must not change, then or later
+    for i in range(ctx.n(200, 5000)):
+        placeholders = i % 4 == 3
+        init = sd_spec(rng, placeholders)
+        first = {"sub": small_tree(rng, 1), "n": {"deep": {"x": 1}}, **small_tree(rng)}
+        ops = []
+        if i % 2:
+            init["data"] = {}
+        else:
+            ops.append(("clear",))
+        ops.append(("merge", ("plain", first) if rng.random() < 0.6 else ("sd", dict(sd_spec(rng, placeholders, base=3), data=first)), ""))
+        for _ in range(rng.randrange(1, 5)):
+            if rng.random() < 0.6:
+                ops.append(("merge", ("plain", {"sub": {pool_key(rng): leaf_nodollar(rng)}, "n": {"deep": {pool_key(rng): 2}, "y": 3}}), ""))
+            else:
+                ops.append(rand_op(rng, placeholders))
+        cases.append({"init": init, "ops": ops, "ordinary": not placeholders, "placeholders": placeholders})
     # the self-reference exception of merge (correspondence only; outside the ordinary domain)
     for i in range(ctx.n(100, 2000)):
         k = rng.choice(["a", "b", "ab"])
